@@ -53,6 +53,25 @@ def check_run(chk: core.Check, r: dict, label, replay_rows: int):
         lost = list((logged - infile).elements())
         chk.fail('C14/rows-torn-or-lost', f'the rows in the file are not the rows the workers appended: {len(torn)} lines that no worker wrote (torn / interleaved), {len(lost)} appended rows missing',
                  {**rep, 'lines_no_worker_wrote': torn[:3], 'appended_rows_missing': lost[:3]})
+    if job.get('mix') == 'half-fail':
+        # failure is local: an iteration fails exactly when its porosity sample is above 100 — every other iteration must be in the file
+        sampled = [e for e in r['events'] if e['event'] == 'sampled']
+        started_ok = 0
+        for e in sampled:
+            try:
+                v = float(e['entries'].splitlines()[0].split(', ', 1)[1])
+            except Exception:  # noqa
+                continue
+            started_ok += 1 if v <= 100.0 else 0
+        chk.case((label, 'failure-locality'), True)
+        if len(sampled) != job['iterations']:
+            chk.fail('C14/failing-iteration-affects-others', f'{job["iterations"]} iterations were requested but only {len(sampled)} were started: iterations disappeared without a row and without failing themselves',
+                     {**rep, 'started': len(sampled)})
+        elif len(rows) != started_ok:
+            chk.fail('C14/failing-iteration-affects-others', f'{started_ok} iterations drew an in-range sample (they simulate), but the file has {len(rows)} rows: a failing iteration took other rows with it',
+                     {**rep, 'rows': len(rows), 'in_range_iterations': started_ok})
+        else:
+            chk.tag('failure/local')
     want_header = ', '.join(outs + [i[0] for i in job['inputs']])
     if header.strip() != want_header:
         chk.fail('C14/header', 'the header is not the requested outputs followed by the inputs', {**rep, 'header': header})
@@ -190,6 +209,8 @@ def run(chk: core.Check) -> int:
     add('HIP_RA_X', 'uniform5', [i for i in MIXES['uniform5'] if i[0] != 'Formation Porosity'] + [('Reservoir Porosity', 'uniform', 9.0, 28.0)], mc.HIP_OUTPUTS, mc.HIP_BASE, 24 if quick else 200, 16)
     add('HIP_RA_X', 'all-kinds', MIXES['all-kinds'], mc.HIP_OUTPUTS[:2], mc.HIP_BASE, 12 if quick else 100, 3)
     add('HIP_RA_X', 'half-fail', MIXES['half-fail'], mc.HIP_OUTPUTS[:2], mc.HIP_BASE, 20 if quick else 120, 5)
+    # many more iterations than workers, about half of them failing: however the pool batches tasks, a failure may cost only its own row
+    add('HIP_RA_X', 'half-fail', MIXES['half-fail'], mc.HIP_OUTPUTS[:2], mc.HIP_BASE, 160 if quick else 512, 16)
     gbase = geo.params_to_text(geo.base_params(2, 1, 1, L=10, n=2))
     add('GEOPHIRES', 'geophires-mix', GEO_MIX, GEO_OUTS, gbase, 10 if quick else 60, 4)
     # an output that the report of this configuration does not contain (a heat-only figure requested for an electricity case): F12
